@@ -93,7 +93,17 @@ class Interp:
             if k not in STR:
                 raise Reject(pos, 'unexpected-token')
             name = toks[pos][2]
-            o = self.find(sec, name)
+            tsec = sec
+            if ('|' in name or '=' in name) and not sec.keystrval:
+                # a name written as a path addresses the option it resolves to, relative to the section being read (statement of C11)
+                if self.nocase:
+                    raise Unspec('path-like name under NOCASE')
+                from vlib import model_store
+                tsec, o, _ = model_store.resolve(sec, name)
+                if o is None:
+                    raise Reject(pos, 'unknown-option')
+            else:
+                o = self.find(sec, name)
             if o is None:
                 if sec.keystrval:
                     nd = D(name, 'str', 0, None)
@@ -105,11 +115,11 @@ class Interp:
             if d.simple and (d.is_list or d.typ not in ('int', 'float', 'bool', 'str')):
                 raise Unspec('simple option of this kind')
             if d.typ == 'sec':
-                pos = self.section(sec, o, toks, pos + 1, level)
+                pos = self.section(tsec, o, toks, pos + 1, level)
             elif d.typ == 'func':
-                pos = self.call(sec, o, toks, pos + 1)
+                pos = self.call(tsec, o, toks, pos + 1)
             else:
-                pos = self.assign(sec, o, toks, pos + 1)
+                pos = self.assign(tsec, o, toks, pos + 1)
             if d.flags & F_DEPRECATED:
                 self.diags += 1
                 if d.flags & F_DROP:
